@@ -2067,6 +2067,10 @@ class Builder:
         if params.min_fidelity_all_at_end is not None:
             # If a min-fidelity constraint is specified, wrap the operation in a loop
             assert params.max_tries is not None
+            # On NV hardware a qubit sitting on virtual ID 0 is moved away for the
+            # entanglement. This must happen once, *before* the retry loop: inside
+            # the loop the move would be executed again by every new attempt.
+            self._build_cmds_free_up_qubit_location(0)
             with self.sdk_new_loop_until_context(params.max_tries) as loop:
                 qubits, result_array = self.sdk_epr_keep(
                     role=EPRRole.CREATE, params=params, reset_results_array=True
@@ -2114,6 +2118,10 @@ class Builder:
         if params.min_fidelity_all_at_end is not None:
             # If a min-fidelity constraint is specified, wrap the operation in a loop
             assert params.max_tries is not None
+            # On NV hardware a qubit sitting on virtual ID 0 is moved away for the
+            # entanglement. This must happen once, *before* the retry loop: inside
+            # the loop the move would be executed again by every new attempt.
+            self._build_cmds_free_up_qubit_location(0)
             with self.sdk_new_loop_until_context(params.max_tries) as loop:
                 qubits, result_array = self.sdk_epr_keep(
                     role=EPRRole.RECV, params=params, reset_results_array=True
